@@ -251,6 +251,12 @@ class Fn:
             r = self.ev(c)
             if is_(l, "idx") and is_(r, "idx") and isinstance(op, (ast.Eq, ast.NotEq, ast.Lt, ast.LtE, ast.Gt, ast.GtE)):
                 self.ob(e, "compare-idx", W.same(l[1], r[1]), "%s vs %s" % (self.show(l), self.show(r)))
+            if is_(l, "idx") and is_(r, "len") and isinstance(op, ast.Lt) and l[1] is not None:
+                # idx < len(S) on indices of an image-major sequence = the first (home) block, written as a filter
+                sp = W.find(l[1])
+                if sp.startswith("filt(prod(") or sp.startswith("prod("):
+                    inner = sp[sp.index("prod(") + 5:].split(")")[0].split(",")[-1]
+                    self.ob(e, "home-block", inner == W.find(r[1]), "filter idx < %s on indices over %s: the home-cell block has the inner atom count %s" % (self.show(r), sp, inner))
             if isinstance(op, (ast.In, ast.NotIn)) and is_(l, "idx"):
                 el = None
                 if is_(r, "seq"):
@@ -631,6 +637,12 @@ class Fn:
                         W.union(cur[1], d)
                     new = Seq(cur[1] if W.same(cur[1], d) else W.fresh("mixed"), W.unify(cur[2], a0))
                 self.env[fn.value.id] = new
+            return None
+        if name == "append" and isinstance(fn, ast.Attribute) and isinstance(fn.value, ast.Subscript) and isinstance(fn.value.value, ast.Name):
+            # buckets[k].append(i): the bucket lists hold what is appended
+            cur = self.env.get(fn.value.value.id)
+            if is_(cur, "map") and is_(cur[2], "seq") and a0 is not None:
+                self.env[fn.value.value.id] = ("map", cur[1], Seq(cur[2][1], W.unify(cur[2][2], a0)))
             return None
         if name in ("allclose", "isclose"):
             return BOOL
